@@ -62,6 +62,7 @@ type pathInfo struct {
 	json  bool
 	top   bool
 	fact  string
+	ptrnum bool // pointer to a number: only used inside arithmetic, comparisons and as a destination
 }
 
 // G is the generator state for one program.
@@ -98,6 +99,7 @@ func (g *G) buildPaths() {
 		add(grl.P(f+".S2"), grl.TString, true, true)
 		add(grl.P(f+".B"), grl.TBool, true, true)
 		add(grl.P(f+".T"), grl.TTime, true, true)
+		add(grl.P(f+".PN"), grl.TInt, false, true).ptrnum = true
 		add(grl.P(f+".P.X"), grl.TInt, true, true)
 		add(grl.P(f+".P.Y"), grl.TString, true, true)
 		add(grl.P(f+".P.Z"), grl.TFloat, true, true)
@@ -227,6 +229,9 @@ func (g *G) Expr(t grl.Type, depth int, exact bool) *grl.Expr {
 				return lit(g.R.PickInt64(smallInts...))
 			}
 			pi := g.pickPath(grl.TInt, exact, false)
+			if pi.ptrnum {
+				return grl.Bin("+", grl.PathE(grl.ClonePath(pi.p)), lit(0)) // never a bare right-hand side
+			}
 			return grl.PathE(g.maybeComputedSel(pi))
 		}
 		switch g.R.Intn(10) {
@@ -420,7 +425,11 @@ func (g *G) call(t grl.Type, depth int) *grl.Expr {
 
 // natural returns a boolean expression that fails to evaluate on most fact states.
 func (g *G) natural() *grl.Expr {
-	switch g.R.Intn(8) {
+	switch g.R.Intn(10) {
+	case 8:
+		return grl.Bin("==", grl.PathE(grl.P("F.A").Idx(grl.PathE(grl.P("F.S")))), lit(1)) // string selector on a slice
+	case 9:
+		return grl.Bin("==", grl.PathE(grl.P("G.A").Idx(grl.PathE(grl.P("G.B")))), lit(0)) // boolean selector on a slice
 	case 6:
 		return grl.Bin("==", &grl.Expr{K: "call", Path: grl.P(g.R.PickStr("F", "G")), Fn: "Boom", Args: []*grl.Expr{lit(1)}}, lit(1)) // user method panics with a string
 	case 7:
@@ -592,6 +601,10 @@ func (g *G) action(r *grl.Rule) *grl.Action {
 		return &grl.Action{K: "complete"}
 	case x < g.Prof.PRetract+g.Prof.PComplete+3:
 		return &grl.Action{K: "log", Text: "note " + r.Name}
+	case x < g.Prof.PRetract+g.Prof.PComplete+5:
+		// re-point the nested pointer to the spare object (which no rule reads or writes otherwise)
+		f := g.R.PickStr("F", "G")
+		return &grl.Action{K: "assign", Path: grl.P(f + ".P"), Op: "=", E: grl.PathE(grl.P(f + ".P2"))}
 	}
 	return g.assign(g.destPath())
 }
@@ -620,6 +633,11 @@ func (g *G) fact() *grl.Fact {
 		AF:  []float32{0.5, float32(smallFloats[r.Intn(len(smallFloats))]), 2},
 		M:   map[string]int64{"k1": r.PickInt64(smallInts...), "k2": r.PickInt64(smallInts...)},
 		MS:  map[string]string{"k1": smallStrs[r.Intn(len(smallStrs))], "k2": "v"},
+	}
+	pn := r.PickInt64(smallInts...)
+	f.PN = &pn
+	if !r.Chance(g.Prof.PNilPtr, 100) {
+		f.P2 = &grl.Sub{X: r.PickInt64(smallInts...) + 100, Y: "spare", Z: 8.25, Q: &grl.Leaf{V: r.PickInt64(smallInts...) + 50, W: "spare-leaf"}}
 	}
 	if !r.Chance(g.Prof.PNilPtr, 100) {
 		f.P = &grl.Sub{X: r.PickInt64(smallInts...), Y: smallStrs[r.Intn(len(smallStrs))], Z: smallFloats[r.Intn(len(smallFloats))]}
